@@ -514,10 +514,54 @@ _base_check_c16 = check
 
 
 def check(ctx):            # noqa: F811  (extends the rules above)
+    import ast
+    from .. import rules as R
     _base_check_c16(ctx)
     printers(ctx, ctx.prog)
+    # a claim's type is a protobuf oneof: it is recorded on the wire only once the sub-message is "set in parent".  A claim whose type-level fields are all
+    # empty (a collection with 0 claims, a stream with only a title) keeps its type through to_bytes/from_bytes only because get_message marks it
+    gm = ctx.fa("lbry.schema.claim.Claim.get_message")
+    tn = gm.fi.params()[1]
+    sp = gm.calls(name="SetInParent")
+    ctx.floor("C16-D8/TYPE", "Claim.get_message marks the chosen type on an untyped claim", len(sp), 1, site=gm.site(), func=gm.fi.qualname)
+    for c in sp:
+        R.exact_gate(ctx, "C16-D8/TYPE", gm, c, "self.claim_type is None", "an untyped claim takes the requested type the first time it is viewed as one (SetInParent)",
+                     key="C16-D8/TYPE|get_message|set-in-parent")
+        ok = gm.expanded_text(c.func.value, keep=(tn,)) == f"getattr(self.message, {tn})"
+        ctx.ob("C16-D8/TYPE", ok, gm.site(c), "…on the sub-message of the requested type", func=gm.fi.qualname, key="C16-D8/TYPE|get_message|which")
+    for x in gm.stmts(ast.Raise):
+        R.exact_gate(ctx, "C16-D8/TYPE", gm, x, f"self.claim_type != {tn}", "a claim of another type is refused", key="C16-D8/TYPE|get_message|refuse")
+    for x in gm.stmts(ast.Return):
+        ok = gm.expanded_text(x.value, keep=(tn,)) == f"getattr(self.message, {tn})"
+        ctx.ob("C16-D8/TYPE", ok, gm.site(x), "the view returned is the sub-message of the requested type", func=gm.fi.qualname, key="C16-D8/TYPE|get_message|return")
+    # region codes: the writer turns the 3-character UN M49 codes into enum names by prefixing 'R' ('001' -> 'R001'); the reader must strip that prefix from
+    # exactly those names — four characters — and from nothing else (RE, RO, RS, RU, RW are countries)
+    from .. import terms
+    wr = ctx.fa("lbry.schema.attrs.country_str_to_int")
+    wp = wr.fi.params()[0]
+    adds = [a for a in wr.stmts(ast.Assign) if isinstance(a.value, ast.BinOp) and isinstance(a.value.op, ast.Add) and is_const(a.value.left, "R") and dotted(a.value.right) == wp]
+    ctx.floor("C16-D10/REGION", "the writer's 'R' prefix", len(adds), 1, site=wr.site(), func=wr.fi.qualname)
+    for a in adds:
+        R.exact_gate(ctx, "C16-D10/REGION", wr, a, f"len({wp}) == 3", "the writer prefixes 'R' exactly to the 3-character codes", key="C16-D10/REGION|writer")
+    rd = ctx.fa("lbry.schema.attrs.country_int_to_str")
+    strips = [x for x in rd.local_nodes(ast.Subscript) if isinstance(x.slice, ast.Slice) and is_const(x.slice.lower, 1) and x.slice.upper is None]
+    ctx.floor("C16-D10/REGION", "the reader's prefix strip", len(strips), 1, site=rd.site(), func=rd.fi.qualname)
+    for x in strips:
+        nm = unparse(x.value)
+        ife = next((n for n in rd.local_nodes(ast.IfExp) if n.body is x), None)
+        if ife is not None:
+            have = set(terms.conj(ife.test))
+        else:
+            st = R.stmt_of(x)
+            have = None
+            for g in (f"len({nm}) == 4 and {nm}.startswith('R')",):
+                have = set(terms.parse_guard(g)) if rd.guarded(st, g)[0] else set()
+        need = set(terms.parse_guard(f"len({nm}) == 4 and {nm}.startswith('R')"))
+        ok = need <= have
+        ctx.ob("C16-D10/REGION", ok, rd.site(x), "the reader strips the prefix only from 4-character names that start with 'R' (what the writer produced)", func=rd.fi.qualname,
+               detail="" if ok else f"strip condition lacks {sorted(t for t, _p in need - have)}: two-letter countries starting with R lose their first letter",
+               key="C16-D10/REGION|reader")
     # "every field reads back as written" includes Fee.address: stored as Base58-decoded bytes, read back by Base58-encoding them — C06's rule instances
-    from .. import rules as R
     R.share(ctx, "C06", {"C06-D3": "C16-D9"})
 
 
